@@ -1454,6 +1454,10 @@ def gen_dispatch():
          'matches!( key, InherentImplKey::Exact(tast::Ty::TApp { ty, .. }) if ty.constr_name().as_deref() == Some(constr) ) && impl_def.methods.contains_key(&method.0)'),
         (chk, "path form of an inherent call looks the method up under the receiver argument's type",
          'let arg_ty = arg_tast.get_ty(); if super::util::try_constr_name(&arg_ty).as_deref() == Some(resolved_type_name.as_str()) && let Some(method_ty) = type_env.lookup_inherent_method(&arg_ty, &member_ident) { receiver_ty = arg_ty; method_lookup = Some(method_ty); }'),
+        (chk, "the receiver's constructor is compared with the RESOLVED type name (`Cell` written in package Lib is `Lib::Cell`), not with the path as written",
+         'try_constr_name(&arg_ty).as_deref() == Some(resolved_type_name.as_str())'),
+        (chk, "the resolved name is what resolve_type_name returns for the written path",
+         'let (resolved_type_name, type_env) = super::util::resolve_type_name(genv, &type_name); let type_ident = tast::TastIdent(resolved_type_name.clone());'),
         (chk, "dot form of an inherent call looks the method up under the receiver's type",
          'let receiver_ty = receiver_tast.get_ty(); if let Some(method_ty) = lookup_inherent_method_for_ty( genv, &receiver_ty, &tast::TastIdent(field.to_ident_name()), ) {'),
         (nm, "parse_inherent_method_fn_name", 'let mut parts = name.split(\'#\'); if parts.next()? != "inherent" { return None; } let base = parts.next()?; let _ty = parts.next()?; let method = parts.next()?; if parts.next().is_some() { return None; } Some((base, method))'),
